@@ -17,7 +17,7 @@ THEOREMS_BY_PROP = {
             "DepLogic.Lex.parseClauseL_final",
             "DepLogic.M.fromSpecOk_of_lex", "DepLogic.M.pyMergeOk_of_fromSpec", "DepLogic.C02.env0_total",
             "DepLogic.C02.atomFull_good", "DepLogic.C02.atomPvGt_good", "DepLogic.M.pvsem_halfopen",
-            "DepLogic.M.render_halfopen", "DepLogic.M.fromClause_short", "DepLogic.C02.atomRevCompat_good",
+            "DepLogic.M.render_halfopen", "DepLogic.M.fromClause_short", "DepLogic.C02.atomRevCompat_good", "DepLogic.C02.atomComma_good",
             "DepLogic.C02.atomPv3_good", "DepLogic.C02.atomImpl_good", "DepLogic.C02.inexact_never_merged", "DepLogic.C11.reversed_canonical_good"],
     "C03": ["DepLogic.C03.build_sound", "DepLogic.C03.build_sound_final", "DepLogic.M.sound_all", "DepLogic.M.singleSound"],
     "C07": ["DepLogic.C07.str_empty_any", "DepLogic.C07.items_sem", "DepLogic.C07.reparse_sound", "DepLogic.C07.reparse_sound_final",
@@ -182,6 +182,8 @@ def single_layer_pools(tier):
     pfv = ["3.8", "3.8.5", "3.9.0", "3.10.1"] + (["3.7.9", "3.9", "3.10"] if tier == "thorough" else [])
     ops = ["==", "!=", "<", "<=", ">", ">="]
     pool = [f'python_version {o} "{v}"' for o in ops for v in pv] + [f'python_full_version {o} "{v}"' for o in ops for v in pfv]
+    # (operands that are specifier expressions: fixed defect D35, never merged)
+    pool += ['python_version == "3.8,!=3.9"', 'python_full_version >= "3.8,<3.9"', 'python_version != "3.8||==3.9"']
     pool += ['python_version ~= "3.8"', 'python_full_version ~= "3.8.2"', 'python_version == "3.*"', 'python_full_version != "3.9.*"',
              '"3.9" <= python_version', '"3.9.1" > python_full_version', 'python_version not in "3.8, 3.9"', 'python_version in "3.9, 3.10"']
     envs = []
@@ -458,6 +460,16 @@ def run_c03(run: core.Run, n: int) -> None:
             got = ev(m, denv) if "extras" not in text and "dependency_groups" not in text else evaluate_lock(m, denv)
             if i < 3 and mk.model_evaluable([text]):
                 run.add(core.Case("C03.eval", "m.eval\t" + mk.leaf_tokens(text) + "\t" + enc_env(denv), enc_T3(got)))
+            if any(isinstance(v, set) for v in denv.values()):
+                # the same environment with its sets given as frozensets, packaging's own type for the lock_file defaults
+                # (fixed defect D37: only builtin sets were normalised element-wise, a frozenset raised TypeError)
+                fenv = {k: (frozenset(v) if isinstance(v, set) else v) for k, v in denv.items()}
+                gotf = ev(m, fenv) if "extras" not in text and "dependency_groups" not in text else evaluate_lock(m, fenv)
+                if gotf != got:
+                    run.fail(core.Failure("evalf|" + text + "|" + enc_env(denv), f"parse_marker({text!r}).evaluate = {gotf} with "
+                                          f"frozenset-valued variables, {got} with sets",
+                                          {"op": "evalf", "text": text, "env": {k: (sorted(v) if isinstance(v, set) else v) for k, v in denv.items()}}))
+                    break
             if got != want:
                 f = core.Failure("eval|" + text + "|" + enc_env(denv), f"parse_marker({text!r}).evaluate = {got}, packaging says {want}",
                                  {"op": "eval", "text": text, "env": {k: (sorted(v) if isinstance(v, set) else v) for k, v in denv.items()}})
@@ -721,6 +733,20 @@ def run_shape(run: core.Run, prop: str, n: int) -> None:
                         run.fail(core.Failure(f"special|{a}|{s}|{name}", f"[{a}] {name} {s!r} = {r!r} is not in normal form", rep))
                     elif prop == "C07" and "<empty>" in str(r) and not r.is_empty():
                         run.fail(core.Failure(f"special|{a}|{s}|{name}", f"[{a}] {name} {s!r} renders {str(r)!r}", rep))
+    if prop == "C07" and run.first:
+        # literals that need care when rendered, deterministically (fixed defects D27, D36; seed C07g): implementation and
+        # packaging only -- a lone surrogate cannot travel over the model's UTF-8 line protocol
+        n_awk = 0
+        for text in mk.awkward_literal_texts():
+            n_awk += 1
+            try:
+                PkgMarker(text)
+            except Exception:  # noqa: BLE001  (not a marker packaging accepts: outside the quantifier)
+                continue
+            if replay({"replay": {"op": "rt", "text": text}}):
+                run.fail(core.Failure("rt-lit|" + text.encode("unicode_escape").decode(), f"str(parse_marker({text!r})) does not parse "
+                                      "back to the same marker", {"op": "rt", "text": text}))
+        run.extra["awkward_literal_texts"] = n_awk
     run.extra.update(time_budget_skips=stats["timeouts"], oracle_evaluations=stats["oracle"])
 
 
@@ -861,6 +887,12 @@ def replay(data: dict) -> bool:
             return True
         import random
         return any(ev(back, env) != ev(m, env) for env in mk.envs_for([r["text"]], random.Random(0), 40))
+    if r["op"] == "evalf":
+        env = {k: (set(v) if isinstance(v, list) else v) for k, v in r["env"].items()}
+        fenv = {k: (frozenset(v) if isinstance(v, set) else v) for k, v in env.items()}
+        m = mk.parse_marker(r["text"])
+        lock = "extras" in r["text"] or "dependency_groups" in r["text"]
+        return (evaluate_lock(m, fenv) if lock else ev(m, fenv)) != (evaluate_lock(m, env) if lock else ev(m, env))
     if r["op"] == "eval":
         env = {k: (set(v) if isinstance(v, list) else v) for k, v in r["env"].items()}
         try:
